@@ -8,6 +8,7 @@ checksum) depends on the loading environment's configuration (def-use slice from
 target directory + os.replace and removes the temp file on every exceptional path; the magic
 contains the cache version and the interpreter version; the memcached back end honours
 ignore_memcache_errors on both paths; BaseLoader.load stores a bucket only when it was empty.
+Also: the cache key always contains the template name; an entry written in place is a violation.  
 Not decided: crash points of the file system itself, histories.
 """
 
